@@ -141,6 +141,7 @@ class _HTTPCtx:
             symbol, key = fields.get("symbol"), fields.get("listenKey")
         if env.fail_next_http:
             env.fail_next_http = False
+            env.http_fail_times.append(env.loop.time())
             if is_key:
                 env.key_events.append((env.loop.time(), "failed-" + self.method, key, path, symbol))
             raise aiohttp.ClientConnectionError("http failure")
@@ -200,6 +201,7 @@ class Env:
         self.nkeys = 0
         self.tokens = 0
         self.key_events = []
+        self.http_fail_times = []  # virtual times at which a scripted HTTP failure was delivered
         self.key_owner = {}   # listen key -> (endpoint path, symbol) that issued it
         self.expired_at = {}  # listen key -> virtual time at which the server declared it expired
 
